@@ -181,6 +181,15 @@ C11_CAPI = [
     ob("O11.c4", CR + "capi_ret_err", "IntoCReturn for Err: id <= -4096 from store_error, nothing left open", features="capi", stubs=["store_error"], covers_may_be_unsat=["ok"], cost=2),
 ]
 
+NEW_STUBS = ["syscalls::fsopen", "syscalls::open_tree", "syscalls::openat_follow"]
+O_NEW_FAIL = ob("O10.4", PF + "procfs_new_all_fail", "ProcfsHandle::new when fsopen, open_tree and open all fail (fd exhaustion): a clean error after exactly one attempt each, nothing left open", stubs=NEW_STUBS, cost=4)
+O_GLOBAL_INIT = ob("O10.5", PF + "procfs_global_handle_init_fault", "first use of GLOBAL_PROCFS_HANDLE while every constructor fails: must not panic [KNOWN FINDING KF1: it does]", stubs=NEW_STUBS, covers_may_be_unsat=["reached"], cost=4)
+C10_OBS = [O_NEW_FAIL, O_GLOBAL_INIT, O_TFF_FAULT, O_O2_EAGAIN, O_O2_ENOSYS, O_O2_EMFILE, O_FETCH_MNT, O_SAME_MNT, O_IS_PROCFS] + \
+    [o for o in C14_OPS if o["id"] in ("O14.6.base", "O14.5.base", "O14.1.base")] + [C12_OBS[1], C13_OBS[0], C13_OBS[1]] + \
+    [o for o in O_ERR_EQUIV]
+C03_OBS = [O_RESOLVE_PARENT] + [o for o in C14_OPS if o["id"].endswith(".base")] + O_RA_TOP[:1] + [C13_OBS[0], C13_OBS[1], C13_OBS[2], C12_OBS[1]]
+C11_OBS = C11_CAPI + [o for o in C14_OPS if o["id"] in ("O14.5.base", "O14.5.nobase", "O14.6.base", "O14.1.base")] + [O_RESOLVE_PARENT, O_TRY_FROM_FD, O_OPEN_UNMASKED, C12_OBS[1], C13_OBS[2], O_OF_LINK]
+
 PROPERTIES = {
     "C14": {
         "explanation": "C14: every single-entry Root operation is executed on a symbolic path (every byte string <= L), symbolic "
@@ -257,6 +266,33 @@ PROPERTIES = {
         "assumptions": ["rustix entry points replaced by recording stubs in layer 1", "kernel K / resolver contract stubs in layer 3"],
         "obligations": C05_WRAP + [O_O2_OPEN, O_O2_RESOLVE, O_RP_MASK, O_OPEN_UNMASKED] + [o for o in C14_OPS if o["id"] in ("O14.5.base", "O14.6.base")] + [C13_OBS[2], C12_OBS[1]],
     },
+}
+
+PROPERTIES["C03"] = {
+    "explanation": "C03 (assume/guarantee): with the in-root resolver replaced by a stub returning an ARBITRARY in-root descriptor, every mutating or opening call of every Root operation "
+                   "is `*at(fd obtained from the resolver for the parent [or opened O_NOFOLLOW|O_DIRECTORY from it by one safe component], one '/'-free name)`; names '.', '..' and '' never reach "
+                   "the kernel where libpathrs itself descends (remove_all, mkdir_all); decided for every path <= L and arbitrary kernel answers.",
+    "outside": "the resolver (C01/C02); attacker interleavings; remove_all's recursion below the first directory listing; hardlink/rename are in the thorough tier of C14",
+    "assumptions": ["Resolver::resolve / resolve_partial / Handle::reopen return arbitrary in-root descriptors (contract)", "kernel K"],
+    "bounds": {"quick": {"PATH_L": 3}, "thorough": {"PATH_L": 4}},
+    "obligations": C03_OBS,
+}
+PROPERTIES["C10"] = {
+    "explanation": "C10: K lets any call fail with any errno, so every operation harness is also a fault-injection harness (no reachable panic/overflow/index check, unwinding assertions = no unbounded loop, "
+                   "Ok only if the required calls answered Ok). Added here: bounded EAGAIN retry of openat2, errno class mapping (lemma harnesses), fail-closed mount-id probing, handle construction under "
+                   "fd exhaustion and the first use of the global procfs handle.",
+    "outside": "faults inside the emulated walks; allocation failure (Kani models allocation as infallible); the Lazy initialisers of fs.protected_symlinks and ProcfsBase::into_path's expect (suspected, not confirmed natively); multi-fault sequences beyond those K generates in one run",
+    "assumptions": ["kernel K", "resolver contract stubs"],
+    "bounds": {"quick": {"PATH_L": 3}, "thorough": {"PATH_L": 4}},
+    "obligations": C10_OBS,
+}
+PROPERTIES["C11"] = {
+    "explanation": "C11: K keeps a descriptor table driven by a model of close(2) linked over CBMC's; every harness asserts at exit that only caller-owned descriptors plus the returned one are open, "
+                   "that nothing was closed twice or used after close, that caller descriptors were never closed; the C boundary returns a raw descriptor only for Ok and does not close it.",
+    "outside": "the walk's internal Rc<OwnedFd> handling (do_resolve); FD_CLOEXEC is checked as a flag on the creating call (O_CLOEXEC), not via fcntl; attacker interleavings",
+    "assumptions": ["close(2) model", "descriptor numbers never reused by the model (a stale use is then a detected use-after-close)"],
+    "bounds": {"quick": {"PATH_L": 3}, "thorough": {"PATH_L": 4}},
+    "obligations": C11_OBS,
 }
 
 NOT_APPLICABLE = {
